@@ -60,7 +60,7 @@ def main():
             meta["ran"].append("git -C /repo apply patch; ./check %s quick -> exit %d" % (c, rc))
             print(c, "exit", rc, " ".join(first)[:300])
     finally:
-        subprocess.run("git -C /repo checkout -- .", shell=True)
+        subprocess.run("git -C /repo checkout -- . && git -C /repo clean -fdq", shell=True)
     meta["checks"] = results
     meta["caught_by"] = [c for c, r in results.items() if r["exit"] == 1]
     dst = os.path.join("/verif/seeded", name)
